@@ -101,6 +101,8 @@ MUTANTS = {
         ("ordering-reversed-gap", "aldy/major.py", "    for status, opt, sol in model.solutions(coverage.profile.gap):", "    for status, opt, sol in model.solutions(coverage.profile.gap, limit=1):"),
     ],
     "C03": [
+        ("patch:own-c03-archive-ignores-user-structure",),
+        ("patch:own-c03-vcf-hardwired-structure",),
         ("diplo-lower-bound-dropped", "aldy/cn.py", '    model.addConstr(diplo_inducing >= 2, name="CDIPLO")', '    model.addConstr(diplo_inducing >= 0, name="CDIPLO")'),
         ("fusion-penalty-dropped", "aldy/cn.py", "            penalty[n] += PARSIMONY_PENALTY * profile.cn_fusion_left", "            penalty[n] += 0"),
         ("gene-fit-term-dropped", "aldy/cn.py", "    model.setObjective(o_diff + o_fit + o_pars)", "    model.setObjective(o_diff + o_pars)"),
